@@ -91,6 +91,109 @@ def impl_full(case):
     return toks, r, rr
 
 
+def _held(sel):
+    if not sel.wellformed:
+        return ["EMPTY"]
+    return ["ACC", list(sel.specificity), _items(sel), sel.selectorText]
+
+
+def impl_history(case):
+    """successive assignments to ONE Selector; case = (ns, [source, ...], raising). A DOM exception raised by the log
+    in raising mode is a rejected assignment; what the object holds afterwards is reported."""
+    _setup()
+    import xml.dom
+    import css_parser
+    from css_parser.css import Selector
+    ns, sources, raising = case
+    old = css_parser.log.raiseExceptions
+    css_parser.log.raiseExceptions = bool(raising)
+    try:
+        sel = Selector()
+        for src in sources:
+            if not isinstance(src, str):
+                src = [(t, v, 1, 1) for t, v in src]
+            try:
+                sel.selectorText = (src, dict(ns))
+            except xml.dom.DOMException:
+                if not raising:
+                    raise
+        return _held(sel)
+    except Exception as e:  # noqa
+        return ["CRASH", type(e).__name__, str(e)[:200]]
+    finally:
+        css_parser.log.raiseExceptions = old
+
+
+def impl_reassign(case):
+    """case = (ns, good_text, bad_text, raising, via_rule): a Selector holding good_text (stand-alone or
+    rule.selectorList[0] of a parsed sheet) gets bad_text assigned; returns what it reports afterwards."""
+    _setup()
+    import xml.dom
+    import css_parser
+    from css_parser.css import Selector
+    ns, good, bad, raising, via_rule = case
+    old = css_parser.log.raiseExceptions
+    try:
+        css_parser.log.raiseExceptions = False
+        fresh_bad = Selector()
+        try:
+            fresh_bad.selectorText = (bad, dict(ns))
+            if fresh_bad.wellformed:
+                return ["SKIP", "the second text is accepted"]
+        except Exception:  # noqa
+            pass
+        if via_rule:
+            head = "".join("@namespace %s '%s';" % (p, u) for p, u in ns)
+            sheet = css_parser.parseString(head + good + "{x:1}")
+            rules = [r for r in sheet.cssRules if r.type == r.STYLE_RULE]
+            if len(rules) != 1 or len(rules[0].selectorList) != 1:
+                return ["SKIP", "sheet did not give one rule with one selector"]
+            sel = rules[0].selectorList[0]
+        else:
+            sel = Selector()
+            sel.selectorText = (good, dict(ns))
+        if not sel.wellformed:
+            return ["SKIP", "first text rejected"]
+        before = [list(sel.specificity), sel.selectorText]
+        css_parser.log.raiseExceptions = bool(raising)
+        try:
+            sel.selectorText = bad if via_rule else (bad, dict(ns))
+        except xml.dom.DOMException:
+            pass
+        css_parser.log.raiseExceptions = False
+        after = [list(sel.specificity), sel.selectorText]
+        rr = Selector()
+        rr.selectorText = (after[1], dict(ns))
+        return ["OK", before, after, list(rr.specificity) if rr.wellformed else None]
+    except Exception as e:  # noqa
+        return ["CRASH", type(e).__name__, str(e)[:200]]
+    finally:
+        css_parser.log.raiseExceptions = old
+
+
+BAD_TEXTS = ["#p #q #r >", "div.a.b.c[", "h1, h2", "x:not(", "a >", ".a..b", ":x(", "#a]", "a b +", "[a=", "p|", "::",
+             "}", "#a#b#c.d.e f g >", ".k.l.m:not(#z", "a[b=\"[\"", "#i.j k,"]
+
+
+def oracle_reassign(good, expected, r):
+    """a Selector always reports the specificity of the selector it holds"""
+    if r[0] == "SKIP":
+        return None
+    if r[0] == "CRASH":
+        return "re-assignment raised %s: %s" % (r[1], r[2])
+    before, after, rr = r[1], r[2], r[3]
+    if before[0] != [0] + list(expected):
+        return "specificity %s, CSS definition gives %s" % (before[0], [0] + list(expected))
+    if after[1] != before[1]:
+        return "a rejected assignment changed selectorText from %r to %r" % (before[1], after[1])
+    if after[0] != before[0]:
+        return "after a rejected assignment the selector %r reports %s, CSS definition gives %s" % (
+            after[1], after[0], before[0])
+    if rr != after[0]:
+        return "selector %r reports %s but its serialisation re-parses to %s" % (after[1], after[0], rr)
+    return None
+
+
 def impl_page(text):
     _setup()
     import css_parser
@@ -156,7 +259,11 @@ NAMES = ["a", "b", "div", "x-y", "_u", "-m", "A", "Sp", "h1", "\xe9t", "li", "fi
 FNAMES = ["lang", "nth-child", "where", "WHERE", "Where", "nth-of-type", "x", "dir", "f-g", "\xe9"]
 SVALS = [" ", "\n", "  ", "\t", " \n "]
 CVALS = ["/**/", "/*c*/", "/* x */", "/*:*/", "/***/"]
-STRS = ['"x"', "'y'", '"a b"', '"\\""', '""', "' '", '"+"']
+# every value the machine compares token / item values against, used as DATA (quoted attribute values, pseudo arguments,
+# escaped identifiers in the soup): data must never be taken for syntax
+META = ["[", "]", "(", ")", "*", "|", ":", ".", "#", "+", ">", "~", ",", "-", "=", " ", "not(", "::", ":x", ".c", "#h", "*|*",
+        "/**/", "[x]", "][", ":where(", ":first-line", "|=", "~="]
+STRS = ['"x"', "'y'", '"a b"', '"\\""', '""', "' '", '"+"'] + ['"%s"' % m for m in META] + ["'%s'" % m for m in META[:14]]
 HASHES = ["#a", "#1a", "#-x", "#A_b", "#\xe9"]
 DIMS = ["2n", "-3n", "3px", "10n"]
 NUMS = ["1", "+1", "-2", "0", "2.5"]
@@ -363,9 +470,11 @@ SOUP = [("IDENT", "a"), ("IDENT", "p"), ("IDENT", "not"), ("CHAR", ":"), ("CHAR"
         ("universal", "*|*|*"), ("universal", "p|*"), ("class", ".k"), ("pseudo-class", ":x"), ("pseudo-element", "::y("),
         ("negation", ":not("), ("namespace_prefix", "q|"), ("STRING", "x"), ("CHAR", "{"), ("IDENT", "FIRST-LINE"),
         ("CHAR", ";"), ("UNICODE-RANGE", "U+1"), ("IDENT", "K"), ("FUNCTION", "n\\ot(")]
+SOUP += [("STRING", '"%s"' % m) for m in META] + [("IDENT", m) for m in META] + [("STRING", m + m) for m in META[:14]] + \
+    [("HASH", "#" + m) for m in META[:6]] + [("DIMENSION", "1" + m) for m in META[:4]]
 SMALL = [("IDENT", "a"), ("CHAR", ":"), ("CHAR", "."), ("CHAR", "*"), ("CHAR", "|"), ("CHAR", "["), ("CHAR", "]"),
          ("CHAR", ")"), ("CHAR", "="), ("CHAR", "+"), ("CHAR", ">"), ("S", " "), ("COMMENT", "/**/"), ("HASH", "#h"),
-         ("FUNCTION", "not("), ("FUNCTION", "f("), ("STRING", '"s"'), ("NUMBER", "1"), ("IDENT", "p"),
+         ("FUNCTION", "not("), ("FUNCTION", "f("), ("STRING", '"["'), ("NUMBER", "1"), ("IDENT", "p"),
          ("DASHMATCH", "|=")]
 TEXT_ALPHA = list("ab*|.:#[]()=~^$+>- ,\"'\\@1n") + ["/**/", "not(", "::", "p|", "lang(", " ", "first-line", "\\3a ", "\n"]
 
@@ -532,6 +641,44 @@ def run(ctx):
         stats["exhaustive_cases"] = len(soup) - n_soup
         stats["soup_and_exhaustive_accepted"] = acc
 
+        # ---- (d) re-assignment histories on one Selector object (commit guard), both error modes
+        pool = [toks for _, toks in soup[:n_soup]] + [[tuple(x) for x in ts] for ts in ast_tokens[:3000]]
+        hists = []
+        for _ in range(20000 if thorough else 3000):
+            ns = [x for x in NSMAP if rng.random() < 0.7]
+            hists.append((ns, [rng.choice(pool) for _ in range(rng.randint(2, 4))], rng.random() < 0.5))
+        lines = ["H|%s|%s" % (ns_wire(ns), "#".join(";".join("%s:%s" % (cps(a), cps(b)) for a, b in toks) for toks in hs))
+                 for ns, hs, _ in hists]
+        out = ctx.run_binary(binary, lines, shards=PROCS)
+        res = ctx.pool_map(impl_history, hists, procs=PROCS, chunksize=256)
+        stats["histories"], stats["histories_skipped_model_crash_in_raising_mode"] = len(hists), 0
+        for (ns, hs, raising), o, r in zip(hists, out, res):
+            n_eval += 1
+            m = ["EMPTY"] if o == "EMPTY" else parse_result(o)
+            if raising and m[0] == "CRASH":
+                stats["histories_skipped_model_crash_in_raising_mode"] += 1
+                continue
+            d = compare(m, r[:3])
+            if d:
+                mism.append(("history", [list(map(list, ns)), [[list(x) for x in h] for h in hs], raising], d))
+
+        # property-level oracle on re-assignment: valid text (grammar stream) then a rejected text
+        good = [(ns, text, tr) for (ns, w, tr), (_, text) in zip(asts, texts) if text][:(12000 if thorough else 2500)]
+        bad_pool = BAD_TEXTS + ["".join(v for _, v in toks) for _, toks in soup[:n_soup:7]]
+        rcases = [(ns, text, rng.choice(bad_pool), rng.random() < 0.5, rng.random() < 0.3) for ns, text, tr in good]
+        rres = ctx.pool_map(impl_reassign, rcases, procs=PROCS, chunksize=128)
+        stats["reassignments"] = sum(1 for r in rres if r[0] == "OK")
+        rfound = []
+        for (ns, text, tr), case, r in zip(good, rcases, rres):
+            n_eval += 1
+            v = oracle_reassign(text, tr, r)
+            if v:
+                rfound.append((len(text) + len(case[2]), v, {"kind": "reassign", "ns": ns, "text": text, "then": case[2],
+                                                              "raising": case[3], "via_rule": case[4],
+                                                              "expected": [0] + list(tr)}))
+        for _, v, wit in sorted(rfound, key=lambda x: x[0]):
+            ctx.violation(v, wit, sig_text=json.dumps([wit["text"], wit["then"]]))
+
         # the model's own normalizer against the shared Tokenizer.normalize (validated in C08) and helper.normalize
         from css_parser.helper import normalize as pynorm
         nv = sorted({v for _, v in SOUP} | set(NAMES) | {":" + n for n in NAMES} | {"a\\", "\\", "\\\\(", "A\\g\\41 B"})
@@ -588,6 +735,17 @@ def run(ctx):
                         best = {"kind": "selector", "text": text, "ns": ns, "expected": [0] + list(tr), "fails": v}
             if best:
                 return best
+            rc = [(ns, text, rng.choice(BAD_TEXTS), rng.random() < 0.5, rng.random() < 0.3)
+                  for (ns, w, tr), (_, text) in zip(batch, texts) if text]
+            rr_ = ctx.pool_map(impl_reassign, rc, procs=PROCS, chunksize=128)
+            trs = [tr for (ns, w, tr), (_, text) in zip(batch, texts) if text]
+            for case, tr, r in zip(rc, trs, rr_):
+                v = oracle_reassign(case[1], tr, r)
+                if v and (best is None or len(case[1]) < len(best["text"])):
+                    best = {"kind": "reassign", "ns": case[0], "text": case[1], "then": case[2], "raising": case[3],
+                            "via_rule": case[4], "expected": [0] + list(tr), "fails": v}
+            if best:
+                return best
         return None
 
     ctx.finish({
@@ -597,7 +755,10 @@ def run(ctx):
                 "operators, functional pseudos, :not() of every simple kind, namespaces, whitespace/comment layout) "
                 "rendered by the extracted Coq renderer, re-tokenized by the real tokenizer; token stream: random and "
                 "mutated token lists incl. synthetic types, tokenized random texts, and ALL token sequences of length "
-                "<= %d over a %d-token alphabet; non-trivial = distinct grammar texts accepted with the "
+                "<= %d over a %d-token alphabet; re-assignment histories (2-4 assignments to one Selector, logging and "
+                "raising mode) and valid-then-rejected assignments (stand-alone and rule.selectorList[0]); quoted "
+                "attribute values / pseudo arguments / soup values include every literal the machine compares against; "
+                "non-trivial = distinct grammar texts accepted with the "
                 "by-construction specificity and stable on re-parse" % (4 if thorough else 3, len(SMALL)),
         "samples": samples,
         "distribution": stats,
@@ -615,6 +776,9 @@ def replay_one(w):
             return "@page specificity %s (re-parse %s), definition gives %s" % (r[1], r[3], w["expected"])
         return None
     ns = [tuple(x) for x in w.get("ns", [])]
+    if w.get("kind") == "reassign":
+        return oracle_reassign(w["text"], w["expected"][1:],
+                               impl_reassign((ns, w["text"], w["then"], w["raising"], w["via_rule"])))
     return oracle_full(ns, w["text"], w["expected"][1:], impl_full((ns, w["text"])))
 
 
